@@ -114,17 +114,18 @@ type thread struct {
 }
 
 type world struct {
-	url      string // the request URL of this case (one key per case)
-	key      []byte
-	storeURL string
-	hasStore bool
-	fs       *fakeStore
-	cfg      []config.CacheConfig
-	srv      interface{ GetCache() string }
-	handler  elton.Handler
-	threads  []*thread
-	filler   []byte
-	t0       time.Time
+	neverRequested []byte
+	url            string // the request URL of this case (one key per case)
+	key            []byte
+	storeURL       string
+	hasStore       bool
+	fs             *fakeStore
+	cfg            []config.CacheConfig
+	srv            interface{ GetCache() string }
+	handler        elton.Handler
+	threads        []*thread
+	filler         []byte
+	t0             time.Time
 }
 
 var labelName = map[cache.Status]string{cache.StatusFetching: "LFetching", cache.StatusHitForPass: "LHitForPass", cache.StatusHit: "LHit", cache.StatusPassed: "LPassed", cache.StatusUnknown: "LUnknown"}
@@ -400,6 +401,14 @@ func runCase(t *testing.T, rnd *hx.Rand, caseNo int, nops int, withStore bool, i
 				break
 			}
 		}
+		// a key that is never requested, in the same shard too (purging it must not disturb ours)
+		for j := 0; ; j++ {
+			f := []byte(fmt.Sprintf("GET example.com /never-requested/%d", j))
+			if cache.MemHash(f)%zones == cache.MemHash(w.key)%zones {
+				w.neverRequested = f
+				break
+			}
+		}
 		nextRID := 1
 		record := func(o op, term string) {
 			synctest.Wait()
@@ -563,7 +572,7 @@ func runCase(t *testing.T, rnd *hx.Rand, caseNo int, nops int, withStore bool, i
 					cache.RemoveHTTPCache(name+"-before", w.key)
 				default:
 					variant = "other-key"
-					cache.RemoveHTTPCache(name, []byte("GET example.com http://example.com/never-requested"))
+					cache.RemoveHTTPCache(name, w.neverRequested)
 				}
 				if r1, s1 := resident(), stored(); r1 != r0 || s1 != s0 {
 					implViolations = append(implViolations, map[string]interface{}{"property": "C18", "kind": "purge-elsewhere-touched-this-key", "variant": variant,
